@@ -1105,6 +1105,12 @@ impl MachineState {
                     _ => {
                         push_cell!(self, heap_loc_as_cell!(h), return);
                         self.occurs_check.bind(self, Ref::heap_cell(h), value);
+
+                        // the occurs check may refuse the binding
+                        if self.fail {
+                            self.backtrack();
+                            return;
+                        }
                     }
                 );
             }
@@ -1153,6 +1159,13 @@ impl MachineState {
 
                 let addr = self.store(self[r]);
                 self.occurs_check.bind(self, Ref::heap_cell(h), addr);
+
+                // the occurs check may refuse the binding: fail here, not at some
+                // later instruction after the caller has cut its choice point
+                if self.fail {
+                    self.backtrack();
+                    return;
+                }
 
                 // the former code of this match arm was:
 
